@@ -685,6 +685,7 @@ def run(ck):
     ]
     regenerate(ck)
     broken = ck.coq_props()
+    ck.log(f"coq: property file built, broken obligations: {broken}")
     ok, out = vlib.coq_make(["Model/SessionRun.vo"])
     if not ok:
         raise RuntimeError("SessionRun build failed: " + out[-1500:])
